@@ -61,3 +61,22 @@ def plan_stride(n_lines, tier, target_runs=600):
     if tier == "thorough":
         return 1
     return max(1, -(-int(n_lines * 1.6) // target_runs))
+
+
+def double_preemptions(run_and_judge, n_lines, max_runs=None):
+    """every PAIR of preemption lines i < j (both in 'delay' mode, first alternative thread) of a scenario traced under
+    a narrow focus -> (runs, [(Violation, (i, j)), ...], inconclusive).  Affordable only when n_lines is small
+    (a few dozen): meant for two-function focus sets such as {allocation under a lock} x {iteration of the same table}."""
+    runs, viol, inconclusive = 0, [], 0
+    for i in range(1, n_lines + 1):
+        for j in range(i + 1, n_lines + 1):
+            if max_runs is not None and runs >= max_runs:
+                return runs, viol, inconclusive
+            runs += 1
+            try:
+                run_and_judge(i, j)
+            except Violation as v:
+                viol.append((v, (i, j)))
+            except Inconclusive:
+                inconclusive += 1
+    return runs, viol, inconclusive
